@@ -586,7 +586,14 @@ class SmtLibParser(object):
                 return res
             stack[-1].append(handler)
         else:
+            # A name that is declared, defined or bound denotes its term
+            bound = self.cache.get(what)
             def handler():
+                if isinstance(bound, FNode):
+                    if self.env.stc.get_type(bound) != ty:
+                        raise PysmtTypeError("'%s' is of sort %s, not %s" %
+                                             (what, self.env.stc.get_type(bound), ty))
+                    return bound
                 return self.env.formula_manager.Symbol(what, ty)
             stack[-1].append(handler)
 
